@@ -49,7 +49,7 @@ def trees(draw):
                 if child.place in ('same', 'sub') and draw(st.booleans()):   # (a name with `..` is also searched relative to each -i directory)
                     child.name = draw(st.sampled_from(['body.asm', 'defs.asm']))
                 child.form = draw(st.integers(0, 4))
-                if ambiguous[0] and child.place == 'same' and child.name.startswith('f') and not any(e[0] == 'inc' for e in child.entries):
+                if ambiguous[0] and child.place == 'same' and child.name.startswith('f') and all(e[0] == 'line' for e in child.entries):
                     ambiguous[0] = False
                     child.alt_lines = [e[1] for e in child.entries] + ['addi x0, x0, 0']
                 node.entries.append(('inc', child))
@@ -57,6 +57,13 @@ def trees(draw):
             else:
                 node.entries.append(('line', lines[i]))
                 i += 1
+                if draw(st.integers(0, 11)) == 0:
+                    # a binary file embedded with include_bytes, found relative to THIS file (same written name in several
+                    # directories on purpose); even size so that the code behind it stays aligned
+                    nb = 2 * draw(st.integers(1, 6))
+                    seedv = draw(st.integers(0, 255))
+                    content = bytes((seedv + 17 * k) & 0xff for k in range(nb))
+                    node.entries.append(('bin', draw(st.sampled_from(['table.bin', 'table.bin', 'font.dat'])), content.hex()))
         return node
 
     root = build(lines, 0)
@@ -70,6 +77,8 @@ def flatten(node, use_alt=False):
     for e in node.entries:
         if e[0] == 'line':
             out.append(e[1])
+        elif e[0] == 'bin':
+            out.append('bytes ' + ' '.join(str(b) for b in bytes.fromhex(e[2])))
         else:
             child = e[1]
             if use_alt and child.alt_lines is not None:
@@ -87,6 +96,32 @@ def write_tree(node, directory, rootdir, names_used, stats, depth=0, anc_dirs=()
     for e in node.entries:
         if e[0] == 'line':
             text.append(e[1])
+            continue
+        if e[0] == 'bin':
+            name, content = e[1], bytes.fromhex(e[2])
+            if under_inc:
+                stats['uniq'] = stats.get('uniq', 0) + 1
+                name = 'bu%d.bin' % stats['uniq']    # below a -i directory every name stays unique (see above)
+            path = os.path.join(directory, name)
+            k = 0
+            while path in names_used:
+                k += 1
+                path = os.path.join(directory, name.replace('.', '_%d.' % k))
+            names_used.add(path)
+            with open(path, 'wb') as f:
+                f.write(content)
+            # decoys of the same name (and size) further up the include chain must never be embedded
+            for adir in anc_dirs:
+                dpath = os.path.join(adir, os.path.basename(path))
+                inc_roots = (os.path.join(rootdir, 'inc1'), os.path.join(rootdir, 'inc2'))
+                if adir == directory or adir in inc_roots or dpath in names_used:
+                    continue
+                with open(dpath, 'wb') as f:
+                    f.write(bytes(b ^ 0x5a for b in content))
+                names_used.add(dpath)
+            text.append('include_bytes ' + os.path.basename(path))
+            stats['bins'] = stats.get('bins', 0) + 1
+            stats.setdefault('written', {}).setdefault('bytes:' + os.path.basename(path), set()).add(path)
             continue
         child = e[1]
         if under_inc and not child.name.startswith('f'):
@@ -186,6 +221,11 @@ def judge(case, res):
             f.write(main_text)
         other = os.path.join(root, 'other')
         if case['cwd'] == 'elsewhere_decoys':
+            for nm in ('table.bin', 'font.dat'):
+                for d in (other, os.path.join(other, 'sub')):
+                    os.makedirs(d, exist_ok=True)
+                    with open(os.path.join(d, nm), 'wb') as f:
+                        f.write(b'\xde\xc0' * 3)
             for nm in set(stats['names']) | {'main.asm'}:
                 for d in (other, os.path.join(other, 'sub')):
                     os.makedirs(d, exist_ok=True)
@@ -245,6 +285,8 @@ def judge(case, res):
         res.count('ambiguous_name')
     if stats.get('ancestor_decoys'):
         res.count('trees_with_ancestor_decoys')
+    if stats.get('bins'):
+        res.count('trees_with_include_bytes')
     if any(len(v) > 1 for v in stats.get('written', {}).values()):
         res.count('trees_where_one_include_text_means_different_files')
     if len(set(stats['names'])) < len(stats['names']):
@@ -257,13 +299,13 @@ def judge(case, res):
 
 def _dump(node):
     return {'name': node.name, 'place': node.place, 'form': node.form, 'alt': node.alt_lines,
-            'entries': [['line', e[1]] if e[0] == 'line' else ['inc', _dump(e[1])] for e in node.entries]}
+            'entries': [['line', e[1]] if e[0] == 'line' else (['bin', e[1], e[2]] if e[0] == 'bin' else ['inc', _dump(e[1])]) for e in node.entries]}
 
 
 def _load(d):
     n = Node()
     n.name, n.place, n.form, n.alt_lines = d['name'], d['place'], d['form'], d['alt']
-    n.entries = [('line', e[1]) if e[0] == 'line' else ('inc', _load(e[1])) for e in d['entries']]
+    n.entries = [('line', e[1]) if e[0] == 'line' else (('bin', e[1], e[2]) if e[0] == 'bin' else ('inc', _load(e[1]))) for e in d['entries']]
     return n
 
 
